@@ -30,6 +30,10 @@ def k_queue(tier):
     return q + [_ob("K-queue/N4", "harness.k_queue", "k_queue", dict(N=4))]
 
 
+def k_collect(tier):
+    return [_ob("K-collect/N%d" % (3 if tier == "quick" else 4), "harness.k_collect", "k_collect", dict(N=3 if tier == "quick" else 4))]
+
+
 H = "harness.h_submit"
 _HO = dict(opts=dict(path_seconds=0), cvc5=False)
 
@@ -208,14 +212,14 @@ def c11(tier):
 def obligations(prop, tier):
     table = {
         "C01": lambda t: k_batch(t) + k_queue(t) + h_submit(t),
-        "C02": lambda t: k_batch(t) + k_queue(t) + h_submit(t),
+        "C02": lambda t: k_batch(t) + k_queue(t) + k_collect(t) + h_submit(t),
         "C03": lambda t: h_submit(t) + k_tally(t),
-        "C04": lambda t: k_queue(t) + h_submit(t),
+        "C04": lambda t: k_queue(t) + k_collect(t) + h_submit(t),
         "C05": lambda t: k_batch(t) + h_submit(t),
         "C06": lambda t: k_batch(t) + k_queue(t) + h_submit(t),
         "C07": lambda t: k_batch(t) + h_submit(t) + h_dry(t),
         "C08": c08,
-        "C09": h_submit,
+        "C09": lambda t: k_collect(t) + h_submit(t),
         "C10": lambda t: c10(t) + [o for o in c13(t) if o["name"].startswith("H-resubmit")][:1],
         "C11": c11,
         "C12": h_lost,
